@@ -45,6 +45,7 @@ func c20(c *Ctx) {
 
 	// the gossip function: reads the radius cache with HasGet and sends to the offer queue
 	var gossip *ssa.Function
+	gossipActs := false
 	for _, fn := range p.ModuleFuncs() {
 		has := false
 		core.Calls(fn, func(ci ssa.CallInstruction) {
@@ -53,7 +54,29 @@ func c20(c *Ctx) {
 			}
 		})
 		if has {
-			gossip = fn
+			// the gossip function also takes transfer slots / queues offers; a read-only accessor
+			// that looks up a radius does not
+			acts := core.ReachesInstr(fn, 2, func(in ssa.Instruction) bool {
+				switch x := in.(type) {
+				case *ssa.Select:
+					for _, st := range x.States {
+						if _, f, ok := core.LoadedField(st.Chan); ok && f == "offerQueue" {
+							return true
+						}
+					}
+				case *ssa.Send:
+					if _, f, ok := core.LoadedField(x.Chan); ok && f == "offerQueue" {
+						return true
+					}
+				}
+				return false
+			})
+			if acts || gossip == nil {
+				if acts || !gossipActs {
+					gossip = fn
+				}
+				gossipActs = gossipActs || acts
+			}
 		}
 	}
 	if gossip == nil {
@@ -116,6 +139,17 @@ func c20(c *Ctx) {
 			for _, a := range mc.Call.Args {
 				if kk, isC := core.ConstInt(a); isC {
 					k1 = kk
+				}
+			}
+			if k1 < 0 {
+				// the number of random targets as a setting: whatever it holds is within 0..4
+				for _, a := range mc.Call.Args {
+					if core.IsLenOf(a, func(ssa.Value) bool { return true }) {
+						continue
+					}
+					if rg := p.RangeOf(a, ap.Block()); rg.HasHi && rg.Hi <= 4 && rg.HasLo && rg.Lo >= 0 {
+						k1 = 4
+					}
 				}
 			}
 			// rest = gossip[h0:]
@@ -603,6 +637,7 @@ func c20(c *Ctx) {
 		})
 		r.Check(ok, "R5.pong-radius", core.FuncName(fn), p.Pos(fn.Pos()), "answers with the SSZ (little-endian) encoding of the store's current radius", "the pong does not carry the store's current radius")
 	}
+	errorsExamined(c, "R6.errors-examined", "gossip and radius bookkeeping", []string{"portalwire"}, ".GossipAndReturnPeers", ".processPing", ".processPongPayload", ".processBasicRadius", ".processClientInfo", ".processHistoryRadius", ".updateRadiusCacheIfNeeded", ".handlePing")
 }
 
 func reachableFrom(b *ssa.BasicBlock) map[*ssa.BasicBlock]bool {
